@@ -7,7 +7,7 @@ def gen_scen(rng, sid, rule):
     retry = None
     if rng.random() < 0.5:
         n = rng.randrange(0, 3)
-        retry = [n, 30 if rng.random() < 0.4 else None]
+        retry = [n, rng.choice([30, 30, 5, 40, 1]) if rng.random() < 0.4 else None]   # 1, 5, 40 ms: a clock tick of the same size hits the deadline exactly
     budget = retry[0] if retry else 0
     fails = rng.choice([0, 0, 1, 1, 2, 3])
     fails = min(fails, budget + 1)
